@@ -90,9 +90,11 @@ def run(ctx, chk, tier):
         if not rets or any(o.unmodelled for o in rets):
             chk.unknown("R17", "invert_pl_function(%s): %d return paths %s" % (tag, len(rets), [unmodelled_text(o) for o in rets if o.unmodelled][:1]))
             continue
-        t2d = App("getitem", (Tt, Tup([Const(None), FULL]))) if trank == 1 else App("getitem", (Tt, Tup([Const(None), Const(None)])))
-        y2d = App("getitem", (Y, Tup([FULL, Const(None)])))
-        A_, B_ = App("getitem", (y2d, App("slice", (Const(None), Const(-1), Const(None))))), App("getitem", (y2d, App("slice", (Const(1), Const(None), Const(None)))))
+        from ..terms import subst as _subst
+        N_ = lambda v: _subst(v, {})  # noqa: E731  (normal form of index terms: trailing full slices, x[None][None], expand_dims)
+        t2d = N_(App("getitem", (Tt, Tup([Const(None), FULL]))) if trank == 1 else App("getitem", (Tt, Tup([Const(None), Const(None)]))))
+        y2d = N_(App("getitem", (Y, Tup([FULL, Const(None)]))))
+        A_, B_ = N_(App("getitem", (y2d, App("slice", (Const(None), Const(-1), Const(None)))))), N_(App("getitem", (y2d, App("slice", (Const(1), Const(None), Const(None))))))
         env_rank = {X: 1, Y: 1, Tt: trank}
         seen_cross = seen_fb = False
         for o in rets:
@@ -169,6 +171,8 @@ def check_fallback(ctx, chk, tag, value, j, o, y2d, t2d):
     x2d = App("getitem", (X, Tup([FULL, Const(None)])))
     am = App("argmin", (App("abs", (sub(y2d, t2d),)),), [("axis", Const(0))])
     want = App("getitem", (App("getitem", (x2d, am)), Tup([j, Const(0)])))
+    from ..terms import subst as _subst
+    want, value = _subst(want, {}), _subst(value, {}) if hasattr(value, "key") else value
 
     def emptiness(c, taken):
         if isinstance(c, App) and c.fn == "not":
@@ -202,6 +206,8 @@ def crossing_rules(ctx, chk, tag, e, loop, A_, B_, t2d, Tt):
         return
     transposed = isinstance(nz, App) and nz.fn == "attr:T"
     mask = nz.args[0] if transposed else nz
+    from ..terms import subst as _subst
+    mask = _subst(mask, {})
     if not transposed:
         chk.violation("R17.2", Q, tag + ":order", "nonzero of the untransposed mask", "nonzero(crossing.T): per target, segment indices in increasing order", ctx.where(Q))
     bad = []
